@@ -9,8 +9,9 @@ import Iota.Driver.Pow
 import Iota.Driver.Secp
 import Iota.Driver.Ed
 import Iota.Driver.Slip10
+import Iota.Driver.Mine
 
 namespace Iota.Driver
 def allOps : List (String × Handler) :=
-  C14.ops ++ C10.ops ++ C15.ops ++ Bech32.ops ++ C19.ops ++ Curl.ops ++ Bip39.ops ++ Pow.ops ++ Secp.ops ++ Ed.ops ++ Slip10.ops
+  C14.ops ++ C10.ops ++ C15.ops ++ Bech32.ops ++ C19.ops ++ Curl.ops ++ Bip39.ops ++ Pow.ops ++ Secp.ops ++ Ed.ops ++ Slip10.ops ++ Mine.ops
 end Iota.Driver
